@@ -254,10 +254,16 @@ def _c08_specs(tier):
     if tier == 'quick':
         return [('c08-all-len2', ['--set', 'all', '--len', '2']), ('c08-proto-len4', ['--set', 'proto', '--len', '4']),
                 ('c08-two-core-len2', ['--set', 'core', '--len', '2', '--two', '1'])] + [
-                    ('c08-synth-%s-proto-len3' % sc, ['--set', 'proto', '--len', '3', '--synth', sc], 1) for sc in ('semi', 'ms')]
+                    ('c08-synth-%s-proto-len3' % sc, ['--set', 'proto', '--len', '3', '--synth', sc], 1) for sc in ('semi', 'ms')] + [
+                    # a cap on active HMMs that the probe grammar exceeds: the search narrows its beams dynamically
+                    ('c08-maxhmmpf5-proto-len3', ['--set', 'proto', '--len', '3', '--maxhmmpf', '5'], 2),
+                    ('c08-maxhmmpf3-core-len2', ['--set', 'core', '--len', '2', '--maxhmmpf', '3'], 2)]
     return [('c08-all-len3', ['--set', 'all', '--len', '3']), ('c08-core-len3', ['--set', 'core', '--len', '3']),
             ('c08-two-core-len3', ['--set', 'core', '--len', '3', '--two', '1'])] + [
-                ('c08-synth-%s-core-len2' % sc, ['--set', 'core', '--len', '2', '--synth', sc], 2) for sc in ('semi', 'ms')]
+                ('c08-synth-%s-core-len2' % sc, ['--set', 'core', '--len', '2', '--synth', sc], 2) for sc in ('semi', 'ms')] + [
+                ('c08-maxhmmpf5-proto-len4', ['--set', 'proto', '--len', '4', '--maxhmmpf', '5'], 8),
+                ('c08-maxhmmpf3-core-len3', ['--set', 'core', '--len', '3', '--maxhmmpf', '3'], 16),
+                ('c08-maxhmmpf10-all-len2', ['--set', 'all', '--len', '2', '--maxhmmpf', '10'], 8)]
 
 
 def _c16_specs(tier):
